@@ -1,7 +1,415 @@
-//! C15 — not built yet.
-use vp_common::Cli;
+//! C15 — admission is decided on the effective client address, before any protocol work.
+//! Real TCP against a directly built `Listener` (recording adapters): sequences of connections
+//! through several "load balancer" peers announcing a mix of sources via PROXY v1/v2 headers.
+
+use crate::tcp::{self, TcpEnd};
+use crate::util::*;
+use serde_json::{Value, json};
+use std::collections::HashMap;
+use std::net::{IpAddr, SocketAddr};
+use std::time::Duration;
+use vp_common::{Cli, Report, Rng, Tier};
+use vp_sim::client::{Client, Transport};
+use vp_sim::recadapters::Call;
+use vp_sim::scripts::{self, Ident};
+
+#[derive(Clone, Debug, PartialEq)]
+enum Header {
+    /// PROXY protocol is off: nothing is sent before the handshake
+    NotUsed,
+    V1(SocketAddr),
+    V2(SocketAddr),
+    V2Local,
+    /// header cut into segments with pauses
+    V1Split(SocketAddr, usize),
+    V2Split(SocketAddr, usize),
+    /// no header at all although the listener requires one
+    Missing,
+    Malformed(usize),
+    /// a well-formed header of a version the listener has disabled
+    DisabledVersion(SocketAddr),
+}
+
+impl Header {
+    fn class(&self) -> &'static str {
+        match self {
+            Header::NotUsed => "no-proxy",
+            Header::V1(_) => "v1",
+            Header::V2(_) => "v2",
+            Header::V2Local => "v2-local",
+            Header::V1Split(..) => "v1-split",
+            Header::V2Split(..) => "v2-split",
+            Header::Missing => "missing",
+            Header::Malformed(_) => "malformed",
+            Header::DisabledVersion(_) => "disabled-version",
+        }
+    }
+    fn valid(&self) -> bool {
+        matches!(self, Header::NotUsed | Header::V1(_) | Header::V2(_) | Header::V2Local | Header::V1Split(..) | Header::V2Split(..))
+    }
+}
+
+#[derive(Clone, Debug)]
+struct Conn {
+    peer_ip: IpAddr,
+    header: Header,
+    login: bool,
+}
+
+#[derive(Clone, Debug)]
+struct Seq {
+    name: String,
+    /// (allow_v1, allow_v2)
+    proxy: Option<(bool, bool)>,
+    limit: usize,
+    conns: Vec<Conn>,
+    burst: Option<(SocketAddr, usize)>,
+}
+
+fn malformed(i: usize) -> Vec<u8> {
+    match i % 5 {
+        0 => b"PROXY TCP4 not an address\r\n".to_vec(),
+        1 => b"PROXI TCP4 1.2.3.4 5.6.7.8 1 2\r\n".to_vec(),
+        2 => {
+            // v2 signature with an unknown version nibble
+            let mut h = tcp::V2_SIG.to_vec();
+            h.extend_from_slice(&[0x31, 0x11, 0x00, 0x0c, 1, 2, 3, 4, 5, 6, 7, 8, 0, 1, 0, 2]);
+            h
+        }
+        3 => vec![0xde, 0xad, 0xbe, 0xef, 0x00, 0x01, 0x02, 0x03, 0x04, 0x05, 0x06, 0x07, 0x08, 0x09, 0x0a, 0x0b, 0x0c, 0x0d, 0x0e, 0x0f],
+        _ => b"GET / HTTP/1.1\r\nHost: x\r\n\r\n".to_vec(),
+    }
+}
+
+fn sources(rng: &mut Rng) -> Vec<SocketAddr> {
+    let mut v: Vec<SocketAddr> = vec![
+        format!("198.51.100.{}:{}", rng.range(1, 250), rng.range(1024, 65000)).parse().expect("addr"),
+        format!("203.0.113.{}:{}", rng.range(1, 250), rng.range(1024, 65000)).parse().expect("addr"),
+        format!("[2001:db8::{:x}]:{}", rng.range(1, 0xffff), rng.range(1024, 65000)).parse().expect("addr"),
+        format!("[2001:db8:1::{:x}]:{}", rng.range(1, 0xffff), rng.range(1024, 65000)).parse().expect("addr"),
+    ];
+    rng.shuffle(&mut v);
+    v
+}
+
+fn generate(cli: &Cli) -> Vec<Seq> {
+    let mut out = vec![];
+    let n = cli.scaled(cli.tier.pick(8, 40));
+    let len = if cli.tier == Tier::Quick { 36 } else { 120 };
+    for i in 0..n {
+        let mut rng = Rng::stream(cli.seed, 150_000 + i);
+        let proxy = match i % 4 {
+            0 => None,
+            1 => Some((true, true)),
+            2 => Some((false, true)),
+            _ => Some((true, false)),
+        };
+        let limit = *rng.pick(&[1usize, 2, 5]);
+        let peers: Vec<IpAddr> = vec!["127.0.0.1".parse().expect("ip"), "127.0.0.2".parse().expect("ip"), "127.0.0.3".parse().expect("ip")];
+        let srcs = sources(&mut rng);
+        let mut conns = vec![];
+        for _ in 0..len {
+            let peer_ip = *rng.pick(&peers);
+            // the announced port varies per connection, the IP is what is limited
+            let mut src = *rng.pick(&srcs);
+            src.set_port(rng.range(1024, 65000) as u16);
+            let header = match proxy {
+                None => Header::NotUsed,
+                Some((v1, v2)) => match rng.below(12) {
+                    0 => Header::Missing,
+                    1 => Header::Malformed(rng.below(5) as usize),
+                    2 => {
+                        if v2 {
+                            Header::V2Local
+                        } else {
+                            Header::V1(src)
+                        }
+                    }
+                    3 if !(v1 && v2) => Header::DisabledVersion(src),
+                    4 => {
+                        if v1 {
+                            Header::V1Split(src, rng.range(1, 20) as usize)
+                        } else {
+                            Header::V2Split(src, rng.range(1, 27) as usize)
+                        }
+                    }
+                    k => {
+                        if (k % 2 == 0 && v1) || !v2 {
+                            Header::V1(src)
+                        } else {
+                            Header::V2(src)
+                        }
+                    }
+                },
+            };
+            conns.push(Conn { peer_ip, header, login: rng.chance(1, 6) });
+        }
+        let burst = if i % 2 == 0 {
+            let mut b: SocketAddr = "192.0.2.99:5000".parse().expect("addr");
+            b.set_port(rng.range(1024, 65000) as u16);
+            Some((b, limit + rng.range(2, 6) as usize))
+        } else {
+            None
+        };
+        out.push(Seq { name: format!("seq{i}/proxy-{}/limit-{limit}", match proxy { None => "off".to_string(), Some((a, b)) => format!("v1:{a},v2:{b}") }), proxy, limit, conns, burst });
+    }
+    out
+}
+
+fn header_bytes(h: &Header, dst: SocketAddr, proxy: Option<(bool, bool)>) -> Vec<Vec<u8>> {
+    match h {
+        Header::NotUsed | Header::Missing => vec![],
+        Header::V1(s) => vec![tcp::proxy_v1(*s, dst)],
+        Header::V2(s) => vec![tcp::proxy_v2(*s, dst)],
+        Header::V2Local => vec![tcp::proxy_v2_local()],
+        Header::V1Split(s, at) => {
+            let b = tcp::proxy_v1(*s, dst);
+            let at = (*at).min(b.len() - 1).max(1);
+            vec![b[..at].to_vec(), b[at..].to_vec()]
+        }
+        Header::V2Split(s, at) => {
+            let b = tcp::proxy_v2(*s, dst);
+            let at = (*at).min(b.len() - 1).max(1);
+            vec![b[..at].to_vec(), b[at..].to_vec()]
+        }
+        Header::Malformed(i) => vec![malformed(*i)],
+        Header::DisabledVersion(s) => match proxy {
+            Some((false, _)) => vec![tcp::proxy_v1(*s, dst)],
+            _ => vec![tcp::proxy_v2(*s, dst)],
+        },
+    }
+}
+
+struct Finding {
+    signature: String,
+    what: String,
+    detail: Value,
+}
+
+struct SeqOutcome {
+    findings: Vec<Finding>,
+    served: usize,
+    refused: usize,
+    unserved_invalid: usize,
+    addresses_checked: usize,
+    trace: Vec<Value>,
+    inconclusive: Vec<String>,
+}
+
+async fn one_connection(server: SocketAddr, c: &Conn, proxy: Option<(bool, bool)>, secret_seed: u64) -> Result<(TcpEnd, vp_sim::client::ClientLog), String> {
+    let end = TcpEnd::connect(server, Some(c.peer_ip)).await.map_err(|e| format!("connect from {}: {e}", c.peer_ip))?;
+    let segs = header_bytes(&c.header, server, proxy);
+    for (i, s) in segs.iter().enumerate() {
+        if i > 0 {
+            tokio::time::sleep(Duration::from_millis(25)).await;
+        }
+        end.send(s);
+    }
+    let mut secret = [0u8; 16];
+    Rng::new(secret_seed).fill(&mut secret);
+    let plan = if c.login {
+        let claimed = Ident { name: "Claimed".into(), uuid: secret_seed as u128 };
+        scripts::plan(scripts::login_script(2, "adm.example.org", 25565, &claimed, "en_us"), false, secret, Duration::from_secs(4))
+    } else {
+        scripts::plan(scripts::status_script("adm.example.org", 25565, secret_seed), true, secret, Duration::from_secs(4))
+    };
+    let log = Client::new(&end, plan).run().await;
+    Ok((end, log))
+}
+
+async fn run_seq(seq: &Seq) -> SeqOutcome {
+    let spec = DirectSpec {
+        timeout: Duration::from_secs(3),
+        limiter: Some((Duration::from_secs(3600), seq.limit)),
+        proxy: seq.proxy,
+        secret: Some(b"admission-secret".to_vec()),
+        ..Default::default()
+    };
+    let direct = start_direct(spec).await;
+    let mut o = SeqOutcome { findings: vec![], served: 0, refused: 0, unserved_invalid: 0, addresses_checked: 0, trace: vec![], inconclusive: vec![] };
+    let mut admitted: HashMap<IpAddr, usize> = HashMap::new();
+    let shape_base = if seq.proxy.is_some() { "proxy-on" } else { "proxy-off" };
+    for (i, c) in seq.conns.iter().enumerate() {
+        let calls_before = direct.rec.calls().len();
+        let (end, log) = match one_connection(direct.addr, c, seq.proxy, i as u64 + 1).await {
+            Ok(x) => x,
+            Err(e) => {
+                o.inconclusive.push(e);
+                continue;
+            }
+        };
+        let peer = end.local;
+        let got_bytes = end.bytes_received();
+        let served = if c.login { log.count("LoginSuccess") > 0 || log.count("EncryptionRequest") > 0 } else { log.count("StatusResponse") > 0 };
+        end.kill();
+        let effective: Option<SocketAddr> = match &c.header {
+            Header::NotUsed | Header::V2Local => Some(peer),
+            Header::V1(s) | Header::V2(s) | Header::V1Split(s, _) | Header::V2Split(s, _) => Some(*s),
+            _ => None,
+        };
+        let hc = c.header.class();
+        o.trace.push(json!({"i": i, "peer": peer.to_string(), "header": hc, "effective": effective.map(|e| e.to_string()), "served": served, "bytes": got_bytes}));
+        let mut bad = |sig: String, what: String, d: Value| o.findings.push(Finding { signature: sig, what, detail: d });
+        match effective {
+            None => {
+                o.unserved_invalid += 1;
+                if served || got_bytes > 0 {
+                    bad(format!("served-without-valid-header/{hc}"), format!("a connection with a {hc} PROXY header received {got_bytes} bytes"), json!({"index": i}));
+                }
+                // must not consume budget: nothing is counted in the model
+            }
+            Some(eff) => {
+                let n = admitted.entry(eff.ip()).or_insert(0);
+                let expect_served = *n < seq.limit;
+                if expect_served {
+                    *n += 1;
+                }
+                if expect_served && !served {
+                    bad(
+                        format!("refused-although-admissible/{shape_base}/{hc}"),
+                        format!("connection {i} with effective address {} was not served although only {} earlier connections of that address were admitted (limit {})", eff.ip(), *n - 1, seq.limit),
+                        json!({"index": i, "effective": eff.to_string(), "peer": peer.to_string()}),
+                    );
+                } else if !expect_served && served {
+                    bad(
+                        format!("served-although-over-limit/{shape_base}/{hc}"),
+                        format!("connection {i} with effective address {} was served although {} connections of that address had been admitted (limit {})", eff.ip(), *n, seq.limit),
+                        json!({"index": i, "effective": eff.to_string(), "peer": peer.to_string()}),
+                    );
+                } else if !expect_served && got_bytes > 0 {
+                    bad(format!("bytes-sent-to-refused-connection/{shape_base}/{hc}"), format!("a refused connection received {got_bytes} protocol bytes"), json!({"index": i}));
+                }
+                if served {
+                    o.served += 1;
+                    // the address the services saw
+                    let new_calls: Vec<_> = direct.rec.calls().into_iter().skip(calls_before).collect();
+                    for call in &new_calls {
+                        let seen = match &call.call {
+                            Call::Status { ctx } | Call::Authenticate { ctx, .. } | Call::Filter { ctx, .. } | Call::Select { ctx, .. } => Some(ctx.client_addr),
+                            _ => None,
+                        };
+                        if let Some(seen) = seen {
+                            o.addresses_checked += 1;
+                            if seen != eff {
+                                let which = if seen == peer { "tcp-peer" } else { "other" };
+                                bad(
+                                    format!("service-saw-wrong-client-address/{}/{hc}/{which}", call.call.name()),
+                                    format!("the {} service was given client address {seen} instead of the effective address {eff}", call.call.name()),
+                                    json!({"index": i}),
+                                );
+                            }
+                        }
+                    }
+                    if c.login {
+                        for r in log.all("StoreCookie") {
+                            if let Ok(vp_common::refcodec::Pkt::StoreCookie { key, payload }) = &r.pkt
+                                && key == AUTH_KEY
+                                && payload.len() > 32
+                                && let Ok(j) = serde_json::from_slice::<Value>(&payload[32..])
+                            {
+                                o.addresses_checked += 1;
+                                if j["client_addr"].as_str().and_then(|s| s.parse::<SocketAddr>().ok()) != Some(eff) {
+                                    bad(format!("cookie-bound-to-wrong-address/{hc}"), format!("the issued cookie is bound to {} instead of {eff}", j["client_addr"]), json!({"index": i}));
+                                }
+                            }
+                        }
+                    }
+                } else {
+                    o.refused += 1;
+                }
+            }
+        }
+    }
+    // concurrent burst from one fresh source: exactly `limit` are served
+    if let Some((src, m)) = seq.burst {
+        let mut futs = vec![];
+        for k in 0..m {
+            let mut s = src;
+            s.set_port(src.port().wrapping_add(k as u16).max(1024));
+            let header = match seq.proxy {
+                None => Header::NotUsed,
+                Some((true, _)) => Header::V1(s),
+                Some(_) => Header::V2(s),
+            };
+            // without PROXY the effective address is the peer: use an otherwise unused loopback alias
+            let c = Conn { peer_ip: if seq.proxy.is_none() { "127.0.0.77".parse().expect("ip") } else { "127.0.0.1".parse().expect("ip") }, header, login: false };
+            let addr = direct.addr;
+            let proxy = seq.proxy;
+            futs.push(async move { one_connection(addr, &c, proxy, 1000 + k as u64).await });
+        }
+        let results = futures_util::future::join_all(futs).await;
+        let mut served = 0;
+        let mut bytes_to_refused = 0;
+        let mut failed = 0;
+        for r in results {
+            match r {
+                Ok((end, log)) => {
+                    if log.count("StatusResponse") > 0 {
+                        served += 1;
+                    } else if end.bytes_received() > 0 {
+                        bytes_to_refused += 1;
+                    }
+                    end.kill();
+                }
+                Err(_) => failed += 1,
+            }
+        }
+        o.trace.push(json!({"burst": m, "served": served, "limit": seq.limit}));
+        if failed > 0 {
+            o.inconclusive.push(format!("{failed} burst connections could not be established"));
+        } else {
+            o.served += served;
+            o.refused += m - served;
+            if served != seq.limit {
+                o.findings.push(Finding {
+                    signature: format!("burst-admission-count/{shape_base}/{}", if served > seq.limit { "too-many" } else { "too-few" }),
+                    what: format!("{served} of {m} simultaneous connections from one address were served, limit is {}", seq.limit),
+                    detail: json!({"burst": m}),
+                });
+            }
+            if bytes_to_refused > 0 {
+                o.findings.push(Finding { signature: format!("bytes-sent-to-refused-connection/{shape_base}/burst"), what: "refused burst connections received protocol bytes".into(), detail: json!({}) });
+            }
+        }
+    }
+    direct.stop.cancel();
+    o
+}
 
 pub async fn run_prop(cli: &Cli) -> i32 {
-    println!("[{}] INCONCLUSIVE: monitor not built yet", cli.prop);
-    2
+    let mut report = Report::new(
+        cli,
+        "exploration",
+        "sequences of real TCP connections to a Listener with rate limiter (limit 1/2/5, window 1 h) and PROXY protocol {off, v1+v2, v2 only, v1 only}: connections arrive through three loopback peers (127.0.0.1/2/3) announcing four IPv4/IPv6 sources with varying ports via v1 / v2 / v2-LOCAL / split headers, or with a missing, malformed or disabled-version header; status and login flows; judged against per-effective-IP counters kept by the harness (sequential arrivals: exact prediction), the recorded client address of every adapter call and the address inside issued cookies; plus a concurrent burst from a fresh source (exactly `limit` served); distinct = (sequence configuration, connection index)",
+    );
+    report.assume("the limiter window (1 h) never rolls during a run, so the admission model is: the first `limit` connections per effective IP are admitted");
+    let seqs = generate(cli);
+    let futs: Vec<_> = seqs.iter().map(run_seq).collect();
+    // sequences are independent listeners; run a few at a time
+    let mut outcomes = vec![];
+    let mut it = futs.into_iter();
+    loop {
+        let chunk: Vec<_> = it.by_ref().take(8).collect();
+        if chunk.is_empty() {
+            break;
+        }
+        outcomes.extend(futures_util::future::join_all(chunk).await);
+    }
+    for (seq, o) in seqs.iter().zip(outcomes) {
+        for (i, _) in seq.conns.iter().enumerate() {
+            report.eval(Some(&format!("{}#{i}", seq.name)));
+        }
+        report.sample(json!({"sequence": seq.name, "first_connections": o.trace.iter().take(12).collect::<Vec<_>>(), "tail": o.trace.last()}));
+        report.count("connections served", o.served as u64);
+        report.count("connections refused by the limiter (EOF without a byte)", o.refused as u64);
+        report.count("connections with missing / malformed / disabled-version header", o.unserved_invalid as u64);
+        report.count("client addresses seen by services or cookies and compared", o.addresses_checked as u64);
+        for why in o.inconclusive {
+            report.inconclusive(&format!("{}: {why}", seq.name));
+        }
+        for f in o.findings {
+            report.violation(&f.signature, &f.what, json!({"sequence": seq.name, "configuration": {"proxy": format!("{:?}", seq.proxy), "limit": seq.limit}, "detail": f.detail, "trace": o.trace}));
+        }
+    }
+    report.finish()
 }
